@@ -24,6 +24,7 @@ import (
 	"go/types"
 	"os"
 	"path/filepath"
+	"sort"
 	"strings"
 
 	"golang.org/x/tools/go/packages"
@@ -66,6 +67,12 @@ const (
 
 type bxRefuse struct{ why string }
 
+type bxView struct {
+	base     ast.Expr
+	lo       string
+	mem, hdr int
+}
+
 type bxTr struct {
 	pk       *packages.Package
 	fns      map[*types.Func]*bxFn
@@ -95,6 +102,12 @@ type bxFn struct {
 	nloop    int
 	loopName map[ast.Node]string
 	inLoop   bool
+	// local []byte variables that ALIAS another slice (`x := base[lo:hi]`, `x := base`): a write through x is written
+	// back to base as well; mem/hdr count the writes to slice memory / the assignments to slice variables so far, a view
+	// that is older than a write is refused (values do not see writes made through the other name)
+	views    map[types.Object]*bxView
+	opaque   map[types.Object]bool // aliases of something that is not a variable: reading is fine, writing is refused
+	mem, hdr int
 	loopK    func(d int) // continuation of the current loop body (`continue` / end of body)
 }
 
@@ -424,7 +437,9 @@ func (f *bxFn) prescan() {
 	ast.Inspect(f.fd.Body, func(n ast.Node) bool {
 		switch x := n.(type) {
 		case *ast.ForStmt:
-			f.needFuel = true
+			if _, ok := f.boundedFuel(x); !ok {
+				f.needFuel = true
+			}
 		case *ast.AssignStmt:
 			for _, l := range x.Lhs {
 				if _, isId := l.(*ast.Ident); !isId {
@@ -534,10 +549,7 @@ func jumps(n ast.Node) bool {
 // duplicated); otherwise the code after it is continued in both branches
 func (f *bxFn) ifStmt(st *ast.IfStmt, d int, k func(d int)) {
 	if st.Init != nil {
-		if as, ok := st.Init.(*ast.AssignStmt); ok && as.Tok == token.DEFINE && !jumps(st) {
-			f.fail(st, "if with a declaration")
-		}
-		f.simple(st.Init, d)
+		f.simple(st.Init, d) // a variable declared here is visible in the if only; its Lean name is its own
 	}
 	if !jumps(st) {
 		mods, _ := f.varsOf(func(v *types.Var) bool { return v.Pos() < st.Pos() || v.Pos() > st.End() }, true, st.Body, st.Else)
@@ -640,6 +652,9 @@ func (f *bxFn) simple(s ast.Stmt, d int) {
 		f.assignTo(st.X, f.arith(st, op, f.info().TypeOf(st.X), f.expr(st.X, d), "1", d), d)
 	case *ast.DeclStmt:
 		gd := st.Decl.(*ast.GenDecl)
+		if gd.Tok == token.CONST {
+			return // a local constant: its uses carry their value (type checker)
+		}
 		if gd.Tok != token.VAR {
 			f.fail(st, "declaration")
 		}
@@ -696,11 +711,70 @@ func (f *bxFn) assign(st *ast.AssignStmt, d int) {
 		f.expr(st.Rhs[0], d)
 		return
 	}
+	if id, ok := st.Lhs[0].(*ast.Ident); ok && f.kindOf(st.Lhs[0]) == bxSl && f.isLocal(id) {
+		o := f.objOf(id)
+		delete(f.views, o)
+		delete(f.opaque, o)
+		rhs := st.Rhs[0]
+		for {
+			p, ok := rhs.(*ast.ParenExpr)
+			if !ok {
+				break
+			}
+			rhs = p.X
+		}
+		switch r := rhs.(type) {
+		case *ast.SliceExpr:
+			if f.rootVar(r.X) != nil {
+				t, lo := f.sliceExpr(r, d)
+				f.assignTo(id, t, d)
+				f.views[o] = &bxView{r.X, lo, f.mem, f.hdr}
+				return
+			}
+			f.opaque[o] = true
+		case *ast.Ident, *ast.SelectorExpr:
+			if tv := f.info().Types[rhs]; !tv.IsNil() && f.rootVar(rhs) != nil {
+				f.assignTo(id, f.expr(rhs, d), d)
+				f.views[o] = &bxView{rhs, "0", f.mem, f.hdr}
+				return
+			}
+		case *ast.CallExpr:
+			if name, _, _ := f.callee(r); name != "mcache.Malloc" && name != "dirtmake.Bytes" {
+				f.opaque[o] = true
+			}
+		default:
+			f.opaque[o] = true
+		}
+	}
 	f.assignTo(st.Lhs[0], f.exprAs(st.Rhs[0], lt, d), d)
+}
+
+func (f *bxFn) objOf(id *ast.Ident) types.Object {
+	if o := f.info().Defs[id]; o != nil {
+		return o
+	}
+	return f.info().Uses[id]
+}
+
+// a local variable of the function (not a parameter, not the receiver)
+func (f *bxFn) isLocal(id *ast.Ident) bool {
+	v, ok := f.objOf(id).(*types.Var)
+	if !ok || v == f.recv || v.Parent() == v.Pkg().Scope() {
+		return false
+	}
+	for i := 0; i < f.sig.Params().Len(); i++ {
+		if f.sig.Params().At(i) == v {
+			return false
+		}
+	}
+	return true
 }
 
 // store `val` in the lvalue `l` (a variable, a field path, `*p`, an array element)
 func (f *bxFn) assignTo(l ast.Expr, val string, d int) {
+	if f.kindOf(l) == bxSl {
+		f.hdr++
+	}
 	switch x := l.(type) {
 	case *ast.ParenExpr:
 		f.assignTo(x.X, val, d)
@@ -822,7 +896,58 @@ func (f *bxFn) varsOf(outside func(v *types.Var) bool, loopsOK bool, nodes ...as
 			return true
 		})
 	}
+	// declaration order, not order of appearance: a statement reshuffled inside the loop leaves the signature alone
+	sort.SliceStable(mods, func(i, j int) bool { return mods[i].Pos() < mods[j].Pos() })
+	sort.SliceStable(ros, func(i, j int) bool { return ros[i].Pos() < ros[j].Pos() })
 	return
+}
+
+// a counted loop `for i := A; i < B; i++ {…}` (A, B constants; the body neither assigns i nor continues) makes at most
+// B-A iterations: it is run with that much fuel (+1 for the last test) and its function needs no fuel parameter
+func (f *bxFn) boundedFuel(st *ast.ForStmt) (int64, bool) {
+	as, ok := st.Init.(*ast.AssignStmt)
+	if !ok || as.Tok != token.DEFINE || len(as.Lhs) != 1 || len(as.Rhs) != 1 {
+		return 0, false
+	}
+	id, ok := as.Lhs[0].(*ast.Ident)
+	a, okA := constInt(f.t.pk, as.Rhs[0])
+	cond, okC := st.Cond.(*ast.BinaryExpr)
+	if !ok || !okA || !okC || (cond.Op != token.LSS && cond.Op != token.LEQ) {
+		return 0, false
+	}
+	ci, ok := cond.X.(*ast.Ident)
+	b, okB := constInt(f.t.pk, cond.Y)
+	iv := f.info().Defs[id]
+	if !ok || !okB || iv == nil || f.info().Uses[ci] != iv {
+		return 0, false
+	}
+	if inc, ok := st.Post.(*ast.IncDecStmt); !ok || inc.Tok != token.INC || f.rootVar(inc.X) != iv {
+		return 0, false
+	}
+	bad := false
+	ast.Inspect(st.Body, func(n ast.Node) bool {
+		switch x := n.(type) {
+		case *ast.BranchStmt:
+			bad = true
+		case *ast.AssignStmt:
+			for _, l := range x.Lhs {
+				bad = bad || types.Object(f.rootVar(l)) == iv
+			}
+		case *ast.IncDecStmt:
+			bad = bad || types.Object(f.rootVar(x.X)) == iv
+		case *ast.UnaryExpr:
+			bad = bad || x.Op == token.AND
+		}
+		return !bad
+	})
+	n := b - a + 1
+	if cond.Op == token.LEQ {
+		n++
+	}
+	if bad || n < 1 || n > 1<<16 {
+		return 0, false
+	}
+	return n, true
 }
 
 // emits the loop function and the code that runs it; `first` = the pattern line(s) up to the body
@@ -850,6 +975,8 @@ func (f *bxFn) loopDef(at ast.Node, mods, ros []*types.Var, fuelLoop bool, listT
 	if len(modTys) > 1 {
 		sigma = "(" + strings.Join(modTys, " × ") + ")"
 	}
+	f.mem, f.hdr = f.mem+1, f.hdr+1 // no alias taken outside a loop is used inside it, and the other way round
+	defer func() { f.mem, f.hdr = f.mem+1, f.hdr+1 }()
 	if !seen { // the code after an `if` is duplicated into its branches: a loop in it is defined once
 		saveLines, saveIn, saveK := f.lines, f.inLoop, f.loopK
 		f.lines, f.inLoop = nil, true
@@ -947,6 +1074,10 @@ func (f *bxFn) forStmt(st *ast.ForStmt, d int, k func(d int)) {
 		nodes = append(nodes, st.Post)
 	}
 	mods, ros := f.loopVars(st.Body, nil, append(nodes, st.Body)...)
+	start := "fuel"
+	if n, ok := f.boundedFuel(st); ok {
+		start = fmt.Sprint(n)
+	}
 	f.loopDef(st, mods, ros, true, "Nat", func(d int, self, done string) {
 		f.emit(d, "| 0%s => .panic \"nofuel\"", wild(len(mods)))
 		f.emit(d, "| fuel+1%s => do", prefixEach(mods, f))
@@ -965,7 +1096,7 @@ func (f *bxFn) forStmt(st *ast.ForStmt, d int, k func(d int)) {
 		f.block(st.Body.List, d+2, f.loopK)
 		f.emit(d+1, "else do")
 		f.emit(d+2, "%s", done)
-	}, d, "fuel", k)
+	}, d, start, k)
 }
 
 func (f *bxFn) modNames(mods []*types.Var) []string {
@@ -1086,6 +1217,9 @@ func (f *bxFn) expr(e ast.Expr, d int) string {
 		}
 		if v.Parent() == v.Pkg().Scope() {
 			return f.pkgVar(e, v)
+		}
+		if w := f.views[v]; w != nil && w.mem != f.mem {
+			f.fail(e, "%s aliases %s, which was written since", x.Name, f.src(w.base))
 		}
 		return f.nameOf(v)
 	case *ast.StarExpr:
@@ -1249,13 +1383,37 @@ func (f *bxFn) borrow(e ast.Expr, d int) (string, func(nv string, d int)) {
 		}
 		t, lo := f.sliceExpr(se, d)
 		return t, func(nv string, d int) {
-			f.assignTo(se.X, fmt.Sprintf("putBack %s %s %s", atom(f.expr(se.X, d)), atom(lo), atom(nv)), d)
+			f.writeBack(se.X, fmt.Sprintf("putBack %s %s %s", atom(f.expr(se.X, d)), atom(lo), atom(nv)), d)
 		}
 	}
 	if f.rootVar(e) == nil {
 		f.fail(e, "write through %s", f.src(e))
 	}
-	return f.expr(e, d), func(nv string, d int) { f.assignTo(e, nv, d) }
+	return f.expr(e, d), func(nv string, d int) { f.writeBack(e, nv, d) }
+}
+
+// the slice `e` (a variable, a field) was written through and is now `nv`; if it is a view of another slice, that one too
+func (f *bxFn) writeBack(e ast.Expr, nv string, d int) {
+	f.mem++
+	id, ok := e.(*ast.Ident)
+	if !ok || !f.isLocal(id) {
+		f.assignTo(e, nv, d)
+		return
+	}
+	o := f.objOf(id)
+	if f.opaque[o] {
+		f.fail(e, "write through %s, an alias the translation cannot follow", id.Name)
+	}
+	w := f.views[o]
+	f.assignTo(e, nv, d)
+	if w == nil {
+		return
+	}
+	if w.mem != f.mem-1 || w.hdr != f.hdr-1 {
+		f.fail(e, "write through %s: %s may have changed since it was taken", id.Name, f.src(w.base))
+	}
+	f.assignTo(w.base, fmt.Sprintf("putBack %s %s %s", atom(f.expr(w.base, d)), atom(w.lo), atom(f.nameOf(o))), d)
+	w.mem, w.hdr = f.mem, f.hdr
 }
 
 // a call: the hoisted effects are emitted, the Go results are returned
@@ -1343,6 +1501,9 @@ func (f *bxFn) call(call *ast.CallExpr, d int) []string {
 	}
 	t := f.tmp()
 	f.emit(d, "let %s ← %s%s %s", t, g.lean, iargs, strings.Join(args, " "))
+	if g.recvMut || len(wbs) > 0 {
+		f.mem, f.hdr = f.mem+1, f.hdr+1 // the callee may write slice memory and re-slice
+	}
 	k := 0
 	if g.recv != nil && g.recvMut {
 		f.assignTo(rx, proj(t, k, g.nres), d)
@@ -1363,7 +1524,7 @@ func (f *bxFn) call(call *ast.CallExpr, d int) []string {
 
 func (t *bxTr) translate(lean string, fd *ast.FuncDecl) (text string, why string) {
 	obj := t.pk.TypesInfo.Defs[fd.Name].(*types.Func)
-	f := &bxFn{t: t, lean: lean, fd: fd, sig: obj.Type().(*types.Signature), names: map[types.Object]string{}, used: map[string]bool{}, loopName: map[ast.Node]string{}}
+	f := &bxFn{t: t, lean: lean, fd: fd, sig: obj.Type().(*types.Signature), names: map[types.Object]string{}, used: map[string]bool{}, loopName: map[ast.Node]string{}, views: map[types.Object]*bxView{}, opaque: map[types.Object]bool{}}
 	nstructs, sdone := len(t.structs), map[string]bool{}
 	for k := range t.sdone {
 		sdone[k] = true
